@@ -82,18 +82,42 @@ def generate(dirname, maxlen, mode):
     cases = []
     lines = [HEADER]
     base = HEADER.count("\n") + 1
-    for idx, combo in enumerate(enumerate_lists(maxlen)):
-        fname = "f%d" % idx
+    variants = []
+    for combo in enumerate_lists(maxlen):
+        variants.append((combo, None))
+        # the function itself may be named like a would-be generated name (arg0, arg1, _arg0)
+        if any(sy in ("wild", "tuple", "fnname", "fnname_in_newtype", "argname") for sy in combo):
+            for special in ("arg0", "arg1", "_arg0"):
+                variants.append((combo, special))
+    for idx, (combo, special) in enumerate(variants):
+        fname = special or ("f%d" % idx)
         ps = [param(s, i, len(combo), fname) for i, s in enumerate(combo)]
+        # a binding that coincides with the function's name must be renamed, whatever symbol produced it
+        ps = [(pt, ty, "fresh" if b == fname else k, None if b == fname else b) for (pt, ty, k, b) in ps]
+        # a plain binding equal to the special function name would bind twice together with `fnname`: skip
+        binds = [re.sub(r"^(mut |ref )", "", p[0]) for p in ps if re.match(r"^(mut |ref )?[a-z_][a-z0-9_#]*$", p[0]) and p[0] != "_"]
+        binds += [fname for sy in combo if sy == "fnname_in_newtype"]
+        if len(set(binds)) != len(binds):
+            lines.append("// (skipped: duplicate binding)")
+            continue
         args = ", ".join("%s: %s" % (p[0], p[1]) for p in ps)
         if mode == "fn":
             body = "#[cfg(not(skip_m%d))] pub mod m%d { use super::*; #[entrait::entrait(T)] fn %s<D>(deps: &D, %s) -> u8 { 0 } }" % (idx, idx, fname, args)
         else:
             body = "#[cfg(not(skip_m%d))] pub mod m%d { use super::*; #[entrait::entrait(pub T)] pub mod inner { use super::*; pub fn %s<D>(deps: &D, %s) -> u8 { 0 } } }" % (idx, idx, fname, args)
         lines.append(body)
-        cases.append({"idx": idx, "fname": fname, "combo": combo, "params": ps, "line": base + idx})
+        cases.append({"idx": idx, "fname": fname, "combo": combo + (("fn=" + special,) if special else ()), "params": ps, "line": 0})
+    text = "\n".join(lines) + "\n"
     with open(os.path.join(dirname, "src", "lib.rs"), "w") as f:
-        f.write("\n".join(lines) + "\n")
+        f.write(text)
+    # line numbers by reading the file back (fail closed if a case cannot be located)
+    where = {}
+    for ln, line in enumerate(text.split("\n"), 1):
+        m = re.match(r"#\[cfg\(not\(skip_m(\d+)\)\)\]", line)
+        if m:
+            where[int(m.group(1))] = ln
+    for c in cases:
+        c["line"] = where[c["idx"]]
     return cases
 
 
@@ -153,7 +177,7 @@ def run(tier):
                         % (desc, ", ".join(p[0] for p in c["params"]), names))
             if c["fname"] in names:
                 rep.add("W-PATTERNS", key + " shadow", "a generated parameter shadows the function `%s` for %s: %s" % (c["fname"], desc, names))
-            for (pat, ty, kind, bind), got, sym in zip(c["params"], names, combo):
+            for (pat, ty, kind, bind), got, sym in zip(c["params"], names, [x for x in combo if not x.startswith("fn=")]):
                 if kind == "keep" and got != bind:
                     rep.add("W-PATTERNS", "%s symbol %s naming" % (mode, sym),
                             "parameter `%s` should keep the name `%s` but is called `%s` (list %s)" % (pat, bind, got, desc))
